@@ -175,18 +175,22 @@ async fn read_headers(
 ) -> Result<(), Error> {
     loop {
         let buf = read_line(socket).await?;
-        let buf = buf.trim_end();
-        trace!("header={:?}", buf);
-        if buf.is_empty() {
+        // the head ends with an empty line; a line of blanks is not one (the rest of the head would be taken
+        // for payload)
+        if buf.trim_end_matches(|c| c == '\r' || c == '\n').is_empty() {
             return Ok(());
         };
+        let buf = buf.trim_end();
+        trace!("header={:?}", buf);
+        // field-name ":" OWS field-value OWS - the blank behind the colon is optional
         let a = buf
-            .split_once(": ")
+            .split_once(':')
+            .filter(|a| !a.0.is_empty() && !a.0.contains(|c: char| c.is_whitespace()))
             .ok_or_else(|| err_msg(format!("bad response: {:?}", buf)))?;
         if headers.len() >= MAX_HEADERS {
             return Err(err_msg("too many header lines"));
         }
-        headers.push((a.0.to_owned(), a.1.to_owned()))
+        headers.push((a.0.to_owned(), a.1.trim_start().to_owned()))
     }
 }
 
